@@ -74,6 +74,9 @@ class OutlineBase(plumpy.WorkChain):
                 # the step stops the chain with an object that happens to be awaitable, or a mapping that is no dict (empty or not): a
                 # value like any other
                 val = SPECIAL_STOPS[val]
+            if val == '@WAIT':
+                # the step asks for a plain wait (for a reply from outside: somebody resumes the chain) and the outline goes on afterwards
+                val = plumpy.Wait(self._do_step, 'waiting for a reply')
             if val == '@TC0':
                 val = plumpy.ToContext()  # a context assignment that happens to be empty (a fan-out over zero items): nothing to wait for, the chain goes on
         tr.append(name)
@@ -263,7 +266,7 @@ def interpret(ast, preds, rets, max_calls=400):
         v = rets[state['s']] if state['s'] < len(rets) else None
         state['s'] += 1
         trace.append(name)
-        return None if v == '@TC0' else v  # (an empty context assignment is a context assignment: no value)
+        return None if v in ('@TC0', '@WAIT') else v  # (an empty context assignment is a context assignment: no value; nor is a wait)
 
     def run(body):
         for n in body:
